@@ -106,9 +106,21 @@ func PointIndexOK(point string) bool { panic("ghost") }
 //@ modifies fresh
 //@ end
 
+//@ extern github.com/buildbuildio/pebbles/common IsRootObjectName
+//@ ensures result == (s == "Query" || s == "Mutation" || s == "Subscription")
+//@ modifies fresh
+//@ end
+
+// dedupable: "identical lookups of the same entity with the same sub-query and no other
+// variables" (C12) - a follow-up (non-root) step whose only variable is the entity id.
+//@ define dedupable(req *ExecutionRequest, variables map[string]interface{}) bool = !(req.QueryPlanStep.ParentType == "Query" || req.QueryPlanStep.ParentType == "Mutation" || req.QueryPlanStep.ParentType == "Subscription") && len(variables) == 1 && has(variables, "id")
+//@ define dedupKey(req *ExecutionRequest, variables map[string]interface{}) string = sprintf("!%v%v", variables["id"], req.QueryPlanStep.QueryStringHash)
+
 //@ func (*DepthExecutor).setIMap
 //@ props C12 C06 C09
 //@ requires de != nil && req != nil && iMap != nil && wfIMap(iMap)
+//@ ensures[dedup-key] dedupable(req, variables) ==> has(iMap, dedupKey(req, variables)) && iMap[dedupKey(req, variables)].indexes[len(iMap[dedupKey(req, variables)].indexes)-1] == index && result == !old(has(iMap, dedupKey(req, variables))) @props C12
+//@ ensures[own-key] !dedupable(req, variables) ==> has(iMap, itoa(index)) && iMap[itoa(index)].indexes[len(iMap[itoa(index)].indexes)-1] == index && result == !old(has(iMap, itoa(index))) @props C12 C06
 //@ ensures[wf] wfIMap(iMap)
 //@ ensures[card] len(iMap) == old(len(iMap)) + ite(result, 1, 0)
 //@ ensures[dom] forallT(k, string, old(has(iMap, k)) ==> has(iMap, k))
